@@ -353,8 +353,27 @@ Load(st, ls) ==
     {Fail(st, "Error") : f \in {x \in fin : x.res = "ok" /\ st.vlevel > 0 /\
                                  (PlaceholderIds(x.st) # {} \/ VirtLinkKeys(x.st) # {})}}
 
+\* --- tag edits on a connected line (the tag travels in op.l.tags / op.l.tagn) ---
+WithoutTag(l, n) ==
+  LET keep == SelectSeq([i \in DOMAIN l.tags |-> i], LAMBDA i : l.tagn[i] # n) IN
+  [l EXCEPT !.tags = SeqMap(LAMBDA i : l.tags[i], keep), !.tagn = SeqMap(LAMBDA i : l.tagn[i], keep)]
+SetTag(st, id, t) ==
+  LET tgt == IdxNamed(st, id) IN
+  IF tgt = {} THEN {Fail(st, "NotFoundError"), Fail(st, "Error")}
+  ELSE LET i == CHOOSE i \in tgt : TRUE
+           base == WithoutTag(st.lines[i], t.tagn[1]) IN
+       {Ok([st EXCEPT !.lines[i] = [base EXCEPT !.tags = Append(base.tags, t.tags[1]),
+                                                 !.tagn = Append(base.tagn, t.tagn[1])]])}
+DelTag(st, id, t) ==
+  LET tgt == IdxNamed(st, id) IN
+  IF tgt = {} THEN {Fail(st, "NotFoundError"), Fail(st, "Error")}
+  ELSE LET i == CHOOSE i \in tgt : TRUE IN
+       {Ok([st EXCEPT !.lines[i] = WithoutTag(st.lines[i], t.tagn[1])])}
+
 Step(st, op) ==
   CASE op.k = "add"   -> Add(st, op.l)
+    [] op.k = "settag" -> SetTag(st, op.id, op.l)
+    [] op.k = "deltag" -> DelTag(st, op.id, op.l)
     [] op.k = "load"  -> Load(st, op.ls)
     [] op.k = "query" -> {Ok(st)}            \* read-only: the document is unchanged (C10)
     [] op.k = "flush" -> ProcessQueue(st)
